@@ -384,7 +384,11 @@ class FactoredInference:
                     p = self.domain.size(proj)
                     Q = aslinearoperator(Q)
                     Q.dtype = np.dtype(Q.dtype)
-                    eig = eigsh(Q.H * Q, 1)[0][0]
+                    if Q.shape[1] == 1:
+                        # eigsh requires k < N; a single-column query has a 1x1 Gram matrix
+                        eig = float(np.real((Q.H * Q).matvec(np.ones(1))[0]))
+                    else:
+                        eig = eigsh(Q.H * Q, 1)[0][0]
                     eigs[cl] += eig * n / p / noise**2
                     break
         return max(eigs.values())
